@@ -136,3 +136,47 @@ func zzRx13OneRecord() {
 		zzsymAssert(used != 4, "unauthorised_generation_never_opens")
 	}
 }
+
+// A record in the DTLS 1.2 framing (13-byte DTLSPlaintext header) that CLAIMS protection - non-zero epoch, every
+// content type but change_cipher_spec - arrives on an established DTLS 1.3 connection whose cipher suite is one of
+// the three REAL DTLS 1.3 suites (defaultCipherSuites13; their legacy Decrypt entry point is the only thing between
+// such a record and the code that acts on alerts, handshake messages and ACKs). DTLS 1.3 protects records only in
+// the unified-header framing, so nothing can authenticate this one: it is discarded without effect - nothing is
+// delivered, no alert is produced, no error ends the read loop, no ACK or handshake message reaches the state
+// machines, the peer address is unchanged. Arbitrary version bytes, 48-bit sequence number and body.
+//
+//symgo:entry covers=legacy_framed_claiming_protection_dropped
+func zzRx13LegacyFramedRecordDropped() {
+	c := zzRxConn(&zzRxSuite{}, zzsymChoice("client", 2) == 1)
+	common := dtlsstate.CommonState(c.state)
+	st := dtlsstate.Activate13(c.state)
+	c.state = st
+	common.LocalVersion = protocol.Version1_3
+	common.CipherSuite = defaultCipherSuites13()[zzsymChoice("suite13", 3)]
+	opens, used := 0, -1
+	var seen []recordlayer.UnifiedHeader
+	var seenN []int
+	st.TrafficKeys.Install(nil, &dtlsstate.TrafficGeneration{Epoch: 3, Protection: &zzProt13{authOK: true, opens: &opens, id: 3, used: &used, seen: &seen, seenN: &seenN}})
+	common.SetRemoteEpoch(3)
+	types := []protocol.ContentType{protocol.ContentTypeAlert, protocol.ContentTypeHandshake, protocol.ContentTypeApplicationData, protocol.ContentTypeACK, protocol.ContentType(24)}
+	ct := types[zzsymChoice("content_type", len(types))]
+	epoch := uint16(1 + zzsymChoice("epoch", 3))
+	seq := zzsymU64("seq")
+	zzsymAssume(seq <= recordlayer.MaxSequenceNumber)
+	// bodies: an alert (2 bytes: level, description - close_notify and every fatal alert included), an ACK with no /
+	// one record number, a 12-byte handshake header with arbitrary fields
+	body := zzsymBytes("body", []int{2, 18, 12}[zzsymChoice("body_len", 3)])
+	h := recordlayer.Header{ContentType: ct, Version: protocol.Version1_2, Epoch: epoch, SequenceNumber: seq, ContentLen: uint16(len(body))}
+	raw, herr := h.Marshal()
+	zzsymAssert(herr == nil, "harness_header")
+	raw[1], raw[2] = zzsymU8("version_major"), zzsymU8("version_minor")
+	addr0 := c.rAddr
+	out, err := c.handleIncomingPacket(context.Background(), append(raw, body...), &net.UDPAddr{Port: 2}, nil)
+	zzsymAssert(err == nil, "legacy_framed_drop_no_error")
+	zzsymAssert(out.responseAlert == nil, "legacy_framed_drop_no_alert")
+	zzsymAssert(!out.containsHandshake && out.receivedACK == nil, "legacy_framed_drop_no_effect")
+	zzsymAssert(len(c.decrypted) == 0, "legacy_framed_nothing_delivered")
+	zzsymAssert(c.rAddr == addr0, "legacy_framed_drop_keeps_peer_address")
+	zzsymAssert(opens == 0, "legacy_framed_never_reaches_record_protection")
+	zzsymCover("legacy_framed_claiming_protection_dropped")
+}
